@@ -53,6 +53,10 @@ func runC14(c *Ctx) {
 	ruleVectoredEquiv(c, p, "C14.equiv")
 	ruleExitGuards(c, p, "C14.guard")
 	ruleNoCapInEncoders(c, p, "C14.lenonly")
+	if roles := resolveDo(c, p); roles != nil {
+		// the client-level flush discipline that keeps zero-copy chained slices valid until they are written
+		ruleInputStream(c, p, roles, "C14.input")
+	}
 	c.R.Assumptions = append(c.R.Assumptions,
 		"net.Buffers.WriteTo writes the slices in order and consumes them; short writes are its concern (standard library)",
 		"decided: each induction step of the writer invariant and the language equality of the vectored and buffered encoders; not decided: byte values")
@@ -558,6 +562,26 @@ func ruleExitGuards(c *Ctx, p *core.Program, rule string) {
 		n++
 		ge, gw := guards(enc), guards(wr)
 		key := "column/" + ct.Obj().Name()
+		// an emit-nothing shortcut of the form `<count> == 0` must count the column's own rows
+		if rowsFn := methodOf(p, ct, "Rows"); rowsFn != nil && rowsFn.Blocks != nil {
+			own := rowsOf("recv", rowsFn, 0)
+			badGuard := ""
+			for _, gs := range []map[string]bool{ge, gw} {
+				for g := range gs {
+					lhs, ok := strings.CutSuffix(g, " == 0")
+					if !ok {
+						continue
+					}
+					if lhs != own && lhs != "recv.Rows()" && (strings.Contains(lhs, "Rows()") || strings.HasPrefix(lhs, "len(")) {
+						badGuard = g
+					}
+				}
+			}
+			if badGuard != "" {
+				c.R.Bad(rule, key+"/rows", cfg, p.Pos(enc.Pos()), sprintf("the encoder emits nothing when [%s], but the column's row count is %s: a column with rows for which that other count is zero (a Map whose maps are all empty) is sent without its data while the block header announces the rows", badGuard, own))
+				continue
+			}
+		}
 		var extra []string
 		for k := range gw {
 			if !ge[k] {
